@@ -53,10 +53,12 @@ func (w *world) doOp(op int, k int, allowCancel bool) (failed bool) {
 		if sym.Bool("empty_args") {
 			p.Args = nil
 		}
+		refuses := false
 		switch sym.Choose("syncfunc", 3) {
 		case 1:
 			p.SyncFunc = func(pid int) error { return nil }
 		case 2:
+			refuses = true
 			p.SyncFunc = func(pid int) error { return errors.New("sync refused") }
 		}
 		p.SyncAfterExec = sym.Bool("sync_after_exec")
@@ -77,6 +79,11 @@ func (w *world) doOp(op int, k int, allowCancel bool) (failed bool) {
 				w.cancelFn = cancel
 				w.mayRunForever = false
 			}
+		}
+		if p.SyncAfterExec && refuses && w.cancelFn == nil {
+			// the callback runs after the program has started: a refused program may be one that
+			// never ends by itself - it has to be killed, not waited for
+			w.mayRunForever = true
 		}
 		w.prog = nil
 		res := c.Execve(ctx, p)
